@@ -528,11 +528,15 @@ class FileIndex(Index):
             def segreader(segment):
                 if segment in reusable:
                     r = reusable[segment]
-                    del reusable[segment]
-                    return r
-                else:
-                    return SegmentReader(storage, schema, segment,
-                                         generation=generation)
+                    # An open reader carries the deletions of the generation
+                    # it was opened on; only reuse it if they are unchanged
+                    if (set(r.segment().deleted_docs())
+                        == set(segment.deleted_docs())):
+                        del reusable[segment]
+                        return r
+
+                return SegmentReader(storage, schema, segment,
+                                     generation=generation)
 
             if len(segments) == 1:
                 # This index has one segment, so return a SegmentReader object
